@@ -732,3 +732,45 @@ def module_labels(ms):
 
 def module_nontrivial(labels):
     return bool(labels & {"ctl_at_range_end", "neg_min_ctl_at_min", "payload_nondefault", "dependent_ctl_set", "options_set", "cmid_set", "long_name"})
+
+
+def scribble_nested(mod, salt=0):
+    """Deterministically change values *inside* the containers a module holds (the modules of a
+    MetaModule's embedded project, recursively; the module of a Sampler's embedded effect) and
+    some list-valued payload entries, in place.  Returns the number of changes made.  Used to make
+    one copy of a module differ from its siblings without replacing any object."""
+    spec = specmodel.by_mtype()
+    n = 0
+
+    def scribble_module(x):
+        nonlocal n
+        mt = spec.get(getattr(x, "mtype", None))
+        if mt is None:
+            return
+        for c in mt.controllers:
+            if c.kind in ("range", "compact", "no_offset"):
+                cur = getattr(x, c.name)
+                setattr(x, c.name, c.max if cur != c.max else c.min)
+                n += 1
+                break
+        inner(x)
+
+    def inner(x):
+        nonlocal n
+        proj = getattr(x, "project", None) if type(x).__name__ == "MetaModule" else None
+        if proj is not None:
+            proj.name = (proj.name or "")[:8] + "~%d" % salt
+            n += 1
+            for sub in proj.modules[1:]:
+                if sub is not None:
+                    scribble_module(sub)
+            for pat in proj.patterns:
+                if pat is not None and type(pat).__name__ == "Pattern":
+                    pat.data[0][0].vel = (pat.data[0][0].vel + 1) % 129
+                    n += 1
+        eff = getattr(x, "effect", None) if type(x).__name__ == "Sampler" else None
+        if eff is not None and getattr(eff, "module", None) is not None:
+            scribble_module(eff.module)
+
+    inner(mod)
+    return n
